@@ -32,6 +32,9 @@ def run(tier):
         ["comments", "L=%d" % (7 if q else 9), "opts=1,3,0", "entries=1"],
         ["comments", "L=%d" % (5 if q else 6), "opts=1", "entries=%d" % ALL_ENTRIES],
         ["tokens", "L=%d" % (4 if q else 5), "opts=" + ALL_OPTS, "entries=%d" % ALL_ENTRIES],
+        # raw bytes inside strings (UTF-8 validation): every byte sequence up to L bytes, class representatives up to R bytes,
+        # as value, member name and array element, through the five char entry points
+        ["utf8", "L=%d" % (2 if q else 3), "R=%d" % (4 if q else 5), "opts=0", "entries=47"],
     ]
     if not q:
         # one length further through every entry point: strict, each option alone, all options together
@@ -45,7 +48,9 @@ def run(tier):
                "reinitialize), json::parse, json_string_reader, ojson::parse, wjson::parse and json::parse(istream), under "
                "the 32 decode-option sets {comments,trailing comma,max depth 2,lossless_number,lossless_bignum}; oracle: "
                "an independently written RFC 8259 recursive-descent reference (accept/reject and value as model value). "
-               "non-trivial = (text, option set) pairs the reference accepts. (B) BFS over pairs (json_parser private "
+               "(U) every byte sequence of <= 2 (thorough 3) bytes over all 256 values and of <= 4 (5) bytes over 28 representatives of the "
+               "UTF-8 lead/continuation classes, inside a string value, a member name and an array element: accepted iff RFC 3629 "
+               "well-formed. non-trivial = (text, option set) pairs the reference accepts. (B) BFS over pairs (json_parser private "
                "state fed one character per update(), reference pushdown automaton state), nesting depth <= 3.")
     ck.rule += " Stages completed (alphabet, max length L, option-set indices, entry-point mask): " + "; ".join(" ".join(st) for st in stages) + "; B depth=3."
     ck.assumptions = [
